@@ -392,6 +392,10 @@ func (s *Spec) analyzeDefaultResponse(prefix string, res *spec.Response) {
 		if v.Pattern != "" {
 			s.patterns.addHeaderPattern(hRefPref, v.Pattern)
 		}
+
+		if len(v.Enum) > 0 {
+			s.enums.addHeaderEnum(hRefPref, v.Enum)
+		}
 	}
 
 	if res.Schema != nil {
